@@ -41,6 +41,9 @@ func genC02(t *rapid.T) *c02Case {
 	if rapid.IntRange(0, 5).Draw(t, "faultWriter") == 0 {
 		c.FaultPermille = rapid.IntRange(1, 999).Draw(t, "faultAt")
 	}
+	if !c.Opts.Lossless && rapid.IntRange(0, 19).Draw(t, "skipHeavy") == 11 {
+		steerSkipHeavy(t, c.Img, c.Opts)
+	}
 	// rare: large noisy pictures at high quality, so that token partitions exceed 64 KiB (the
 	// 3-byte partition size fields and large chunk sizes are otherwise never exercised)
 	bigEvery := 160
